@@ -26,7 +26,7 @@
 
 From Coq Require Import PrimFloat.
 From Coq Require Import ZArith List Bool Reals Lra Permutation Sorted.
-From BZ Require Import Base.Ops Gen.Point Gen.Line Gen.Quad Gen.Cubic Hand.Sample Proofs.C16 Proofs.C16cont.
+From BZ Require Import Base.Ops Gen.Point Gen.Line Gen.Quad Gen.Cubic Gen.Sample Hand.Sample Proofs.C16 Proofs.C16cont Proofs.Bridge2.
 Import ListNotations.
 Open Scope R_scope.
 
@@ -72,6 +72,32 @@ Proof. exact nonvacuous. Qed.
 Theorem C16_path_continuous :
   forall segs t, connected segs -> segs <> [] -> 0 <= t <= 1 -> forall eps, 0 < eps -> exists delta, 0 < delta /\ forall t', 0 <= t' <= 1 -> Rabs (t' - t) < delta -> Rabs (px (path_pt segs t') - px (path_pt segs t)) < eps /\ Rabs (py (path_pt segs t') - py (path_pt segs t)) < eps.
 Proof. exact path_continuous. Qed.
+(* the hand-written sampling loops ARE the loops regenerated from the source by the translator (Proofs/Bridge2.v): for every scalar carrier whose
+   literals 1.0 / 0.0 are the integers 1 / 0 (true of R and of binary64: lit_ok_R, lit_ok_F), with out-of-fuel on one side iff on the other *)
+Theorem C16_lit_ok_carriers :
+  lit_ok ROps /\ lit_ok FOps.
+Proof. exact (conj lit_ok_R lit_ok_F). Qed.
+Theorem C16_Cubic_sample_is_generated :
+  forall (T : Type) (O : Ops T), lit_ok O -> forall fuel (s : seg4 T) samples, eqb O samples (zero O) = false -> res_of_fuel (Cubic_sample O fuel s samples) = Hand.Sample.sample O (fun t => Ok (Cubic_pointAtTime O s t)) fuel samples.
+Proof. exact @Cubic_sample_gen. Qed.
+Theorem C16_Quad_sample_is_generated :
+  forall (T : Type) (O : Ops T), lit_ok O -> forall fuel (s : seg3 T) samples, eqb O samples (zero O) = false -> res_of_fuel (Quad_sample O fuel s samples) = Hand.Sample.sample O (fun t => Ok (Quad_pointAtTime O s t)) fuel samples.
+Proof. exact @Quad_sample_gen. Qed.
+Theorem C16_Cubic_regularSampleTValue_is_generated :
+  forall (T : Type) (O : Ops T), lit_ok O -> forall fuel (s : seg4 T) samples, eqb O samples (zero O) = false -> res_of (Cubic_regularSampleTValue O fuel s samples) = regularSampleTValue O (fun t => Ok (Cubic_lengthAtTime O s t)) (Cubic_length O s) fuel fuel samples.
+Proof. exact @Cubic_regularSampleTValue_gen. Qed.
+Theorem C16_Line_regularSampleTValue_is_generated :
+  forall (T : Type) (O : Ops T), lit_ok O -> forall fuel (s : seg2 T) samples, eqb O samples (zero O) = false -> res_of (Line_regularSampleTValue O fuel s samples) = regularSampleTValue O (fun t => Ok (Line_lengthAtTime O s t)) (Line_length O s) fuel fuel samples.
+Proof. exact @Line_regularSampleTValue_gen. Qed.
+Theorem C16_Path_length_is_generated :
+  forall (T : Type) (O : Ops T) (segs : list (segment T)), Path_length O segs = path_length O segs.
+Proof. exact @Path_length_gen. Qed.
+Theorem C16_Path_pointAtTime_is_generated :
+  forall (T : Type) (O : Ops T), lit_ok O -> forall (segs : list (segment T)) (t : T), res_of_outcome (Path_pointAtTime O segs t) = path_pointAtTime O segs t.
+Proof. exact @Path_pointAtTime_gen. Qed.
+Theorem C16_Path_lengthAtTime_is_generated :
+  forall (T : Type) (O : Ops T), lit_ok O -> forall (segs : list (segment T)) (t : T), res_of_outcome (Path_lengthAtTime O segs t) = path_lengthAtTime O segs t.
+Proof. exact @Path_lengthAtTime_gen. Qed.
 
 Print Assumptions C16_segment_lengthAt_ends.
 Print Assumptions C16_path_lengthAt_ends.
@@ -87,3 +113,11 @@ Print Assumptions C16_path_sampling.
 Print Assumptions C16_regular_not_strict_refuted.
 Print Assumptions C16_nonvacuous.
 Print Assumptions C16_path_continuous.
+Print Assumptions C16_lit_ok_carriers.
+Print Assumptions C16_Cubic_sample_is_generated.
+Print Assumptions C16_Quad_sample_is_generated.
+Print Assumptions C16_Cubic_regularSampleTValue_is_generated.
+Print Assumptions C16_Line_regularSampleTValue_is_generated.
+Print Assumptions C16_Path_length_is_generated.
+Print Assumptions C16_Path_pointAtTime_is_generated.
+Print Assumptions C16_Path_lengthAtTime_is_generated.
